@@ -110,7 +110,10 @@ def corrupt(prog, op, rng):
     nr = dict(r)
     nr['distinct'] = True
     nr['force_distinct'] = True
-    return replace_rule(prog, r, nr), p, p
+    np_ = replace_rule(prog, r, nr)
+    if not any(not x.get('distinct') for x in np_['rules'] if x['pred'] == p):
+      return None       # identical (repeated) rules were all replaced: every rule is distinct, the program stays valid
+    return np_, p, p
   if op == 'self_recursion_no_base':
     p = transform.clone(prog)
     p['rules'] = list(p['rules']) + [{'pred': 'Loop', 'args': [(None, V('x'), None)], 'value': None, 'distinct': False,
@@ -138,12 +141,25 @@ def corrupt(prog, op, rng):
       exp = 'NoSuchFunctor'
     else:
       # an argument the functor certainly does not depend on: a predicate defined after it
-      f = ders[0]
+      f = rng.choice(ders[:-1] or ders)
       later = [q for q in prog['order'][prog['order'].index(f) + 1:] if prog['preds'][q]['kind'] in ('ext', 'derived')]
+      if not later:
+        f = ders[0]
+        later = [q for q in prog['order'][prog['order'].index(f) + 1:] if prog['preds'][q]['kind'] in ('ext', 'derived')]
       if not later:
         return None
       arg = rng.choice(later)
-      p['annotations'] = list(p['annotations']) + [('make', 'Made', f, ((arg, exts[0]),))]
+      binding = [(arg, exts[0])]
+      # half of the time the application also has a legitimate argument (a table the functor really reads,
+      # bound to itself): the foreign argument must still be reported
+      real = set()
+      for r in prog['rules']:
+        if r['pred'] == f:
+          real |= {q for q in ir.called_preds_rule(r) if prog['preds'].get(q, {}).get('kind') == 'ext'}
+      if real and rng.random() < 0.5:
+        k = rng.choice(sorted(real))
+        binding.insert(rng.randrange(2), (k, k))
+      p['annotations'] = list(p['annotations']) + [('make', 'Made', f, tuple(binding))]
       exp = arg
     p['preds'] = dict(p['preds'], Made=dict(prog['preds'][ders[0]], made=True))
     p['order'] = p['order'] + ['Made']
